@@ -9,7 +9,7 @@ open VgiVerif.Gen.C04 (Shape)
 def repaired : Shape :=
   { drainVersion := true, drainParams := true, drainInit := true, drainUnknown := false, initChecks := true,
     cliDrainOverErr := true, cliDrainSurvivesCb := true, unaryDrainOnCb := true, hdrDrainOnCb := true,
-    hdrAbortCloses := true }
+    hdrAbortCloses := true, emptyRequestReplies := true }
 
 namespace Aux
 
@@ -23,6 +23,7 @@ namespace Aux
 @[simp] theorem rep_unaryDrainOnCb : repaired.unaryDrainOnCb = true := rfl
 @[simp] theorem rep_hdrDrainOnCb : repaired.hdrDrainOnCb = true := rfl
 @[simp] theorem rep_hdrAbortCloses : repaired.hdrAbortCloses = true := rfl
+@[simp] theorem rep_emptyRequestReplies : repaired.emptyRequestReplies = true := rfl
 
 def its (xs : List SItem) : List SFr := xs.map .it
 
